@@ -1,4 +1,5 @@
 import KyupyVerif.Model.Def
+import KyupyVerif.Model.DefText
 /-! Driver extension for C20: evaluates the routing model `Model/Def.lean` on an encoded `DefNet` / `DefWire`.
 
 Request  `def <cmd> <payload>`
@@ -77,7 +78,110 @@ def showDict {α : Type} (f : α → String) (d : Dict α) : String :=
 def showVia (v : ViaLoc) : String := s!"{v.1},{v.2.1},{pct v.2.2}"
 def showList (l : List String) : String := if l.isEmpty then "." else ";".intercalate l
 
+/-- a net's `routed` list in the request format above (`~` no ROUTED statement, `.` empty) -/
+def showItem : Item → String
+  | .pt p => "p," ++ showRPt p
+  | .via n none => "v," ++ pct n
+  | .via n (some o) => "v," ++ pct n ++ "," ++ pct o
+  | .arr n nx ny dx dy => s!"a,{pct n},{nx},{ny},{dx},{dy}"
+def showWire (w : Wire) : String :=
+  s!"{pct w.layer}:{showWidth w.width}:{";".intercalate (("p," ++ showRPt w.start) :: w.rest.map showItem)}"
+def showNet : Option (List Wire) → String
+  | none => "~"
+  | some [] => "."
+  | some ws => "|".intercalate (ws.map showWire)
+
+/-! ### text level: `defparse <pct-encoded text>` → `syntax` | `<ok|raise> <tree> <nets>`; nets = `S:name=<net>` / `N:name=<net>` per special / regular net in file order,
+`!`-separated (`-` for none), `<net>` = its ROUTED wires in the request format above; the tree is lark's parse tree with all
+tokens kept (`keep_all_tokens=True`): `rule[child,child,..]`, leaves percent-encoded token texts -/
+namespace Text
+open KV.DefText
+def enc (cs : List Char) : String :=
+  if cs.isEmpty then "%" else
+  String.ofList (cs.flatMap fun c =>
+    if c.isAlphanum || c == '_' then [c] else ['%', hexDigit (c.toNat / 16 % 16), hexDigit (c.toNat % 16)])
+def node (name : String) (ch : List String) : String := name ++ "[" ++ ",".intercalate ch ++ "]"
+def kw (k : Kw) : String := enc k.chars
+def coord : Option Txt → String
+  | some v => enc v
+  | none => enc ['*']
+def point (p : TPoint) : String :=
+  node "point" ([kw .Lpar, coord p.x, coord p.y] ++ (match p.ext with | some e => [enc e] | none => []) ++ [kw .Rpar])
+def dostep (d : TDoStep) : String := node "do_step" [kw .Do, enc d.nx, kw .By, enc d.ny, kw .Step, enc d.dx, enc d.dy]
+def item (sp : Bool) : TItem → String
+  | .pt p => point p
+  | .via n o => node (if sp then "sppoints_via" else "points_via") (enc n :: (match o with | some o => [enc o] | none => []))
+  | .arr n d => node "sppoints_via" [enc n, dostep d]
+def wire (sp : Bool) (w : TWire) : String :=
+  if sp then
+    node "spwire" ([enc w.layer, enc (w.width.getD [])]
+      ++ w.spopts.map (fun o => node "spwire_opt" [kw .Plus, kw (if o.1 then .Shape else .Style), enc o.2])
+      ++ [node "sppoints" (point w.start :: w.rest.map (item sp))])
+  else
+    node "wire" [enc w.layer,
+      node "wire_opt" ((match w.taper with | .none => [] | .taper => [kw .Taper] | .rule r => [kw .Taperrule, enc r])
+        ++ (match w.style with | some s => [kw .Style, enc s] | none => [])),
+      node "points" (point w.start :: w.rest.map (item sp))]
+def wires (sp : Bool) : List TWire → List String
+  | [] => []
+  | [w] => [wire sp w]
+  | w :: ws => wire sp w :: kw .New :: wires sp ws
+def netpart (sp : Bool) : NetPart → String
+  | .pin a b => node "net_pin" [kw .Lpar, enc a, enc b, kw .Rpar]
+  | .opt k v => node "net_opt" [kw .Plus, kw k, enc v]
+  | .wiring k ws => node (if sp then "spnet_wires" else "net_wires") ([kw .Plus, kw k] ++ wires sp ws)
+def net (sp : Bool) (n : TNet) : String :=
+  node (if sp then "spnets_stmt" else "nets_stmt") ([kw .Minus, enc n.name] ++ n.parts.map (netpart sp) ++ [kw .Semi])
+def viaopt (o : TViaOpt) : String := node "vias_opt" ([kw .Plus, kw o.k] ++ o.args.map enc)
+def pinopt : PinOpt → String
+  | .word k v => node "pins_opt" [kw .Plus, kw k, enc v]
+  | .flag k => node "pins_opt" [kw .Plus, kw k]
+  | .layer l p q => node "pins_opt" [kw .Plus, kw .Layer, enc l, point p, point q]
+  | .placed p o => node "pins_opt" [kw .Plus, kw .Placed, point p, enc o]
+def ndopt : NdOpt → List String
+  | .hard => [kw .Plus, kw .Hardspacing]
+  | .layer l w s => [kw .Plus, kw .Layer, enc l, kw .Width, enc w, kw .Spacing, enc s]
+  | .via v => [kw .Plus, kw .Via, enc v]
+def sect (name : String) (k : Kw) (n : Txt) (items : List String) : String :=
+  node name ([kw k, enc n, kw .Semi] ++ items ++ [kw .End, kw k])
+def dstmt : DStmt → String
+  | .units a b n => node "design_stmt" [kw .Units, enc a, enc b, enc n, kw .Semi]
+  | .diearea ps => node "design_stmt" ([kw .Diearea] ++ ps.map point ++ [kw .Semi])
+  | .row a b x y o d => node "design_stmt" [kw .Row, enc a, enc b, enc x, enc y, enc o, dostep d, kw .Semi]
+  | .tracks d s n st l => node "design_stmt" [kw .Tracks, enc d, enc s, kw .Do, enc n, kw .Step, enc st, kw .Layer, enc l, kw .Semi]
+  | .propdef ps => node "propdef" ([kw .Propertydefinitions]
+      ++ ps.map (fun p => node "propdef_stmt" [kw .Componentpin, enc p.1, enc p.2, kw .Semi]) ++ [kw .End, kw .Propertydefinitions])
+  | .vias n vs => sect "vias" .Vias n (vs.map fun v => node "vias_stmt" ([kw .Minus, enc v.name] ++ v.opts.map viaopt ++ [kw .Semi]))
+  | .nondef n ds => sect "nondef" .Nondefaultrules n
+      (ds.map fun d => node "nondef_stmt" ([kw .Minus, enc d.1] ++ d.2.flatMap ndopt ++ [kw .Semi]))
+  | .comps n cs => sect "comp" .Components n
+      (cs.map fun c => node "comp_stmt" [kw .Minus, enc c.name, enc c.kind, kw .Plus, kw .Placed, point c.at_, enc c.orient, kw .Semi])
+  | .pins n ps => sect "pins" .Pins n (ps.map fun p => node "pins_stmt" ([kw .Minus, enc p.name] ++ p.opts.map pinopt ++ [kw .Semi]))
+  | .pinprop n ps => sect "pinprop" .Pinproperties n
+      (ps.map fun p => node "pinprop_stmt" [kw .Minus, kw .Pin, enc p.1, kw .Plus, kw .Property, enc p.2.1, enc p.2.2, kw .Semi])
+  | .spnets n ns => sect "spnets" .Specialnets n (ns.map (net true))
+  | .nets n ns => sect "nets" .Nets n (ns.map (net false))
+def fstmt : FStmt → String
+  | .version v => node "file_stmt" [kw .Version, enc v, kw .Semi]
+  | .dividerchar v => node "file_stmt" [kw .Dividerchar, enc v, kw .Semi]
+  | .busbitchars v => node "file_stmt" [kw .Busbitchars, enc v, kw .Semi]
+  | .design n ss => node "design" ([kw .Design, enc n, kw .Semi] ++ ss.map dstmt ++ [kw .End, kw .Design])
+def file (f : DefFile) : String :=
+  node "start" ((match f.head with | some h => [enc h] | none => []) ++ f.stmts.map fstmt)
+def handle (args : List String) : String :=
+  match args with
+  | [t] =>
+    match parseTree (pctDecode t.toList) with
+    | none => "syntax"
+    | some f =>
+      let nets := f.netsRouted.map fun (sp, name, r) =>
+        (if sp then "S:" else "N:") ++ Def.pct (String.ofList name) ++ "=" ++ Def.showNet r
+      s!"{if f.ok then "ok" else "raise"} {file f} {if nets.isEmpty then "-" else "!".intercalate nets}"
+  | _ => "bad-args"
+end Text
+
 def handle (cmd : String) (args : List String) : Option String :=
+  if cmd == "defparse" then some (Text.handle args) else
   if cmd != "def" then none else
   match args with
   | ["wires", n] =>
